@@ -1,14 +1,16 @@
 /-
   C04 — dt() maps every supported spelling of an instant to the same datetime.
   Property theorems only.  `Gen.num2dt`, `Gen.ym`, `Gen.ymd`, `Gen.ymdSwap`, `Gen.re_*` are GENERATED from the
-  current text of src/pyg_base/_dates.py on every run.  What goes through dateutil / numpy / pandas (ISO, month
-  names, datetime64, Timestamp) is decided by correspondence only; here the string clauses are about the
+  current text of src/pyg_base/_dates.py on every run.  What goes through dateutil / numpy / pandas (month names, datetime64,
+  Timestamp) is decided by correspondence only; the ISO / yyyymmdd text written by dt2str is read back by the model's
+  scanner (assumed to be how dateutil reads it); here the string clauses are about the
   dialect decision of uk2dt / us2dt on top of the assumed dateutil reading `duResolve`.
 -/
 import PygModel.DateParse
 import PygProofs.Lemmas.BumpLemmas
 import PygProofs.Lemmas.MonthLemmas
 import PygProofs.Lemmas.DateLemmas
+import PygProofs.Lemmas.DateStrLemmas
 
 namespace Pyg.Props.C04
 open Pyg Pyg.Bump Pyg.DateParse Pyg.Gen Pyg.Greg
@@ -182,6 +184,79 @@ example : Valid 2000 1 13 ∧ (12 < 13) := by decide
 
 /-- the matcher of the model is the `ambiguity` regex of the source (a changed regex breaks this theorem) -/
 theorem ambiguity_regex_is_modelled : Gen.re_ambiguity = "^[0-9]{1,2}[-/ .][0-9]{1,2}[-/ .][0-9]{2,4}" := rfl
+
+/-! ### dt(dt2str(t)) == t -/
+
+/-- `dt(dt2str(t)) == t` for every datetime from 1000-01-01 to 9999-12-31, to the microsecond, in both dialects:
+the text `dt2str` writes (`yyyymmdd` at midnight, ISO otherwise) is read back to the same instant -/
+theorem dt2str_roundtrip (t : Int) (h0 : mkDate 1000 1 1 ≤ t) (h1 : t < MAXUS) (uk : Bool) :
+    dtCs uk (dt2strCs t) = some (.ok t) := by
+  have h1000 : mkDate 1000 1 1 = 364877 * 86400000000 := by decide
+  rw [h1000] at h0
+  have hlo : (364878 : Int) ≤ ordOf t := by unfold ordOf DAYUS at *; omega
+  have hn : 1 ≤ (ordOf t).toNat ∧ (ordOf t).toNat ≤ 3652059 := by unfold ordOf MAXUS DAYUS at *; omega
+  have g := ord_fromOrd_all (ordOf t).toNat hn.1 hn.2
+  have st := split_t t
+  cases hp : ymdOf t with
+  | mk y m d =>
+    have hp' : fromOrd (ordOf t).toNat = ⟨y, m, d⟩ := hp
+    rw [hp'] at g
+    simp only at g
+    obtain ⟨v, hord⟩ := g
+    have hv := v; unfold Valid at hv
+    have hb := dim_bounds y m hv.2.2.1 hv.2.2.2.1
+    have hy : 1000 ≤ y := by
+      by_cases hc : 1000 ≤ y
+      · exact hc
+      · have b := (ord_bounds y m d v.toU).2
+        have c := dby_mono (y + 1) 1000 (by omega) (by omega)
+        rw [dby_1000] at c; omega
+    have hdate : mkDate y m d = ofOrd (ordOf t) := by unfold mkDate; rw [hord]; congr 1; omega
+    have htod : 0 ≤ todOf t ∧ todOf t < 86400000000 := by unfold DAYUS at st; exact st.2
+    have hrange : checkRange t = .ok t := by rw [checkRange_ok]; unfold MAXUS at *; omega
+    unfold dtCs dt2strCs
+    simp only [hp]
+    by_cases hz : (todOf t).toNat = 0
+    · -- midnight: yyyymmdd
+      rw [if_pos hz]
+      rw [parse_compact y m d (by omega) (by omega) (by omega)]
+      simp only [Option.map_some, Option.some.injEq]
+      rw [decide_plain uk y m d v, hdate]
+      have : ofOrd (ordOf t) + 0 + 0 = t := by omega
+      rw [this]; exact hrange
+    · rw [if_neg hz]
+      by_cases hus : (todOf t).toNat % 1000000 = 0
+      · -- whole seconds
+        rw [if_pos hus]
+        have e := parse_iso y m d ((todOf t).toNat / 1000000 / 3600) ((todOf t).toNat / 1000000 / 60 % 60)
+          ((todOf t).toNat / 1000000 % 60) (by omega) (by omega) (by omega) (by omega) (by omega) (by omega)
+        simp only [List.append_nil] at e
+        simp only [List.append_assoc, List.cons_append] 
+        rw [e]
+        simp only [Option.map_some, Option.some.injEq]
+        rw [decide_plain uk y m d v, hdate]
+        have : ofOrd (ordOf t) + (((todOf t).toNat / 1000000 / 3600 * 3600000000 + (todOf t).toNat / 1000000 / 60 % 60 * 60000000
+            + (todOf t).toNat / 1000000 % 60 * 1000000 : Nat) : Int) + 0 = t := by omega
+        rw [this]; exact hrange
+      · rw [if_neg hus]
+        have e := parse_iso_frac y m d ((todOf t).toNat / 1000000 / 3600) ((todOf t).toNat / 1000000 / 60 % 60)
+          ((todOf t).toNat / 1000000 % 60) ((todOf t).toNat % 1000000) (by omega) (by omega) (by omega) (by omega) (by omega) (by omega) (by omega)
+        simp only [List.append_assoc, List.cons_append]
+        rw [e]
+        simp only [Option.map_some, Option.some.injEq]
+        rw [decide_plain uk y m d v, hdate]
+        have : ofOrd (ordOf t) + (((todOf t).toNat / 1000000 / 3600 * 3600000000 + (todOf t).toNat / 1000000 / 60 % 60 * 60000000
+            + (todOf t).toNat / 1000000 % 60 * 1000000 : Nat) : Int) + (((todOf t).toNat % 1000000 : Nat) : Int) = t := by omega
+        rw [this]; exact hrange
+
+/-- the same on strings: `dt(dt2str(t))` -/
+theorem dt2str_roundtrip_str (t : Int) (h0 : mkDate 1000 1 1 ≤ t) (h1 : t < MAXUS) (uk : Bool) :
+    dtStr uk (dt2str t) = some (.ok t) := by
+  unfold dtStr dt2str; rw [String.toList_ofList]; exact dt2str_roundtrip t h0 h1 uk
+
+-- non-vacuity: 2000-01-10T20:30:40.000050 (the docstring example of dt2str)
+example : dt2str 63083133040000050 = "2000-01-10T20:30:40.000050" ∧ mkDate 1000 1 1 ≤ 63083133040000050 ∧ (63083133040000050 : Int) < MAXUS := by
+  decide +kernel
 
 /-! ### ymd() drops the time of day -/
 
